@@ -64,6 +64,16 @@ Section Purity.
       - intros a IHa b IHb W s Hs. cbn [eval den]. apply (binop_ok Qplus a b IHa IHb W s Hs).
       - intros a IHa b IHb W s Hs. cbn [eval den]. apply (binop_ok Qminus a b IHa IHb W s Hs).
       - intros a IHa b IHb W s Hs. cbn [eval den]. apply (binop_ok Qmult a b IHa IHb W s Hs).
+      - intros f a IHa W s Hs. cbn [eval den]. cbn [wf] in W. destruct (IHa W s Hs) as (Va & La & Fa). destruct (eval cs n a s) as [x s1]. cbn [fst snd] in *.
+        split; [rewrite Va; reflexivity|split; assumption].
+      - intros f a IHa b IHb W s Hs. cbn [eval den]. apply (binop_ok f a b IHa IHb W s Hs).
+      - intros f a IHa b IHb c IHc (Wa & Wb & Wc) s Hs. cbn [eval den].
+        destruct (IHa Wa s Hs) as (Va & La & Fa). destruct (eval cs n a s) as [x s1]. cbn [fst snd] in *.
+        destruct (IHb Wb s1 La) as (Vb & Lb & Fb). destruct (eval cs n b s1) as [y s2]. cbn [fst snd] in *.
+        destruct (IHc Wc s2 Lb) as (Vc & Lc & Fc). destruct (eval cs n c s2) as [z s3]. cbn [fst snd] in *.
+        split; [|split; [exact Lc|]].
+        + rewrite Va, Vb, Vc, (Fb n (le_n n)), (Fa n (le_n n)). reflexivity.
+        + intros i Hi. rewrite (Fc i Hi), (Fb i Hi). apply Fa, Hi.
       - intros j args IH [Wj Wa] s Hs. cbn [eval den].
         destruct (IH Wa s Hs) as (Va & La & Fa). destruct (eval_args cs n args s) as [vals s1]. cbn [fst snd] in *.
         destruct Hall as [Hlen Hg].
